@@ -1,3 +1,128 @@
-//! C18 — markup round trips (filled in by the C18 check).
+//! C18 — JSON / YAML copies of GDSII and LEF libraries, through the library's own helpers
+//! (SerializationFormat::{to_string, from_str, save, open}).
+use crate::gdsabs;
+use crate::lefabs;
+use crate::util::*;
 use crate::CmdFn;
-pub fn commands() -> Vec<(&'static str, CmdFn)> { vec![] }
+use gds21::*;
+use layout21utils::SerializationFormat;
+use serde_json::{json, Value};
+
+pub fn commands() -> Vec<(&'static str, CmdFn)> {
+    vec![("serde_gds", serde_gds), ("serde_lef", serde_lef), ("serde_values", serde_values)]
+}
+fn fmt_of(s: &str) -> SerializationFormat { match s { "json" => SerializationFormat::Json, "yaml" => SerializationFormat::Yaml, _ => panic!("fmt") } }
+
+fn rt_gds(lib: &GdsLibrary, fmt: &str, via: &str, tmp: &str) -> Value {
+    let f = fmt_of(fmt);
+    let back: Result<GdsLibrary, String> = match via {
+        "string" => f.to_string(lib).map_err(|e| format!("ser: {e}")).and_then(|s| f.from_str::<GdsLibrary>(&s).map_err(|e| format!("de: {e}"))),
+        _ => { let p = format!("{tmp}/v.{fmt}"); f.save(lib, &p).map_err(|e| format!("save: {e}")).and_then(|_| f.open::<GdsLibrary>(&p).map_err(|e| format!("open: {e}"))) }
+    };
+    match back {
+        Err(e) => json!({"outcome":"err","msg": e.chars().take(300).collect::<String>()}),
+        Ok(b) => {
+            let d = json_diff(&gdsabs::lib_json(lib), &gdsabs::lib_json(&b), "");     // doubles compare as bit patterns here
+            let bytes_eq = match (crate::gdscmds::write_bytes(lib), crate::gdscmds::write_bytes(&b)) { (Ok(x), Ok(y)) => json!(x == y), _ => Value::Null };
+            json!({"outcome":"ok","eq": *lib == b, "proj_eq": d.is_none(), "diff": d.map(|d| json!([d.0, d.1, d.2])), "bytes_eq": bytes_eq})
+        }
+    }
+}
+fn serde_gds(case: &Value) -> Value {
+    let lib = gdsabs::lib_of(&case["lib"]);
+    let tmp = gets(case, "tmp");
+    let mut out = json!({"id": id(case), "outcome":"ok"});
+    let mut rs = Vec::new();
+    for fmt in ["json", "yaml"] { for via in ["string", "file"] {
+        let r = match guarded(|| rt_gds(&lib, fmt, via, tmp)) { Ok(v) => v, Err(p) => json!({"outcome":"panic","msg":p}) };
+        rs.push(json!({"fmt": fmt, "via": via, "r": r}));
+    }}
+    out["results"] = json!(rs);
+    out
+}
+fn rt_lef(lib: &lef21::LefLibrary, fmt: &str, via: &str, tmp: &str) -> Value {
+    let f = fmt_of(fmt);
+    let back: Result<lef21::LefLibrary, String> = match via {
+        "string" => f.to_string(lib).map_err(|e| format!("ser: {e}")).and_then(|s| f.from_str::<lef21::LefLibrary>(&s).map_err(|e| format!("de: {e}"))),
+        _ => { let p = format!("{tmp}/l.{fmt}"); f.save(lib, &p).map_err(|e| format!("save: {e}")).and_then(|_| f.open::<lef21::LefLibrary>(&p).map_err(|e| format!("open: {e}"))) }
+    };
+    match back {
+        Err(e) => json!({"outcome":"err","msg": e.chars().take(300).collect::<String>()}),
+        Ok(b) => { let d = json_diff(&lefabs::lib_json(lib), &lefabs::lib_json(&b), "");
+                   json!({"outcome":"ok","eq": *lib == b, "proj_eq": d.is_none(), "diff": d.map(|d| json!([d.0, d.1, d.2]))}) }
+    }
+}
+fn serde_lef(case: &Value) -> Value {
+    let text = lefabs::render(geta(case, "toks"), 0, 0, 1);
+    let lib = match lef21::verif::parse_str(&text) { Ok(l) => l, Err(e) => return json!({"id": id(case), "outcome":"ok", "skipped": err_str(e)}) };
+    let tmp = gets(case, "tmp");
+    let mut rs = Vec::new();
+    for fmt in ["json", "yaml"] { for via in ["string", "file"] {
+        let r = match guarded(|| rt_lef(&lib, fmt, via, tmp)) { Ok(v) => v, Err(p) => json!({"outcome":"panic","msg":p}) };
+        rs.push(json!({"fmt": fmt, "via": via, "r": r}));
+    }}
+    json!({"id": id(case), "outcome":"ok", "results": rs})
+}
+
+pub const SPECIALS: &[&str] = &["\"", "a\"b", ":", "a: b", "#", "a #b", "# c", "\\", "a\\nb", " lead", "trail ", "  ", "\n", "a\nb", "line1\n  line2\n", "\t", "a\tb",
+    "é", "中文", "😀", "", "~", "null", "Null", "true", "no", "yes", "on", "1.0", "1e3", "0x1F", "-", "- a", "?", "| ", ">", "%", "@x", "&a", "*a", "!t", "{", "[", ",", "{a: b}", "[1, 2]",
+    "'", "''", "key: 'v'", "`", "---", "...", "0", "007", "+1", ".5", "1_000", "2001-01-01", "\u{feff}x", "\r", "a\r\nb", "\u{85}", "\u{2028}"];
+
+/// special strings and random doubles patched into every string / double field: {seed, n, fmt}
+fn serde_values(case: &Value) -> Value {
+    let mut rng = Rng::new(geti(case, "seed") as u64);
+    let n = geti(case, "n");
+    let tmp = gets(case, "tmp");
+    let mut problems: Vec<Value> = Vec::new();
+    let mut ndoubles = 0u64; let mut nstrings = 0u64;
+    // ---- strings, one library per special string (all string fields at once)
+    for (i, s) in SPECIALS.iter().enumerate() {
+        let mut lib = GdsLibrary::new(*s);
+        lib.set_all_dates(GdsDateTime { year: 100, month: 1, day: 1, hour: 0, minute: 0, second: 0 });
+        let mut st = GdsStruct::new(format!("{s}{i}"));
+        st.dates = lib.dates.clone();
+        st.elems.push(GdsTextElem { string: s.to_string(), layer: 1, texttype: 0, xy: GdsPoint::new(0, 0),
+                                    properties: vec![GdsProperty { attr: 1, value: s.to_string() }], ..Default::default() }.into());
+        st.elems.push(GdsStructRef { name: s.to_string(), xy: GdsPoint::new(1, 1), ..Default::default() }.into());
+        lib.structs.push(st);
+        let mut lef = lef21::LefLibrary::new();
+        let mut m = lef21::LefMacro::new(*s);
+        m.site = Some(s.to_string()); m.eeq = Some(s.to_string());
+        m.properties.push(lef21::LefProperty { name: s.to_string(), value: s.to_string() });
+        let mut pin = lef21::LefPin::default(); pin.name = s.to_string(); pin.net_expr = Some(s.to_string()); pin.taper_rule = Some(s.to_string());
+        m.pins.push(pin);
+        lef.macros.push(m);
+        lef.extensions.push(lef21::LefExtension { name: s.to_string(), data: s.to_string() });
+        if let Some(c) = s.chars().next() { lef.divider_char = Some(c); lef.bus_bit_chars = Some((c, s.chars().last().unwrap())); }
+        for fmt in ["json", "yaml"] { for via in ["string", "file"] {
+            nstrings += 2;
+            let r = match guarded(|| rt_gds(&lib, fmt, via, tmp)) { Ok(v) => v, Err(p) => json!({"outcome":"panic","msg":p}) };
+            if !(r["outcome"] == "ok" && r["eq"] == true && r["proj_eq"] == true) { problems.push(json!({"kind":"string","crate":"gds21","value": s, "fmt": fmt, "via": via, "r": r})); }
+            let r = match guarded(|| rt_lef(&lef, fmt, via, tmp)) { Ok(v) => v, Err(p) => json!({"outcome":"panic","msg":p}) };
+            if !(r["outcome"] == "ok" && r["eq"] == true && r["proj_eq"] == true) { problems.push(json!({"kind":"string","crate":"lef21","value": s, "fmt": fmt, "via": via, "r": r})); }
+        }}
+    }
+    // ---- doubles: random in-range bit patterns in units / mag / angle, never parsed from text by the harness
+    let mut per_fmt = std::collections::BTreeMap::new();
+    for k in 0..n {
+        let mut lib = GdsLibrary::new("d");
+        lib.set_all_dates(GdsDateTime { year: 100, month: 1, day: 1, hour: 0, minute: 0, second: 0 });
+        let mut rd = |rng: &mut Rng| { let e = (rng.range(-250, 250) + 1023) as u64; f64::from_bits((rng.below(2) << 63) | (e << 52) | (rng.next() & ((1u64 << 52) - 1))) };
+        lib.units = GdsUnits(rd(&mut rng), rd(&mut rng));
+        let mut st = GdsStruct::new("s"); st.dates = lib.dates.clone();
+        for _ in 0..8 {
+            st.elems.push(GdsStructRef { name: "x".into(), xy: GdsPoint::new(0, 0),
+                strans: Some(GdsStrans { mag: Some(rd(&mut rng)), angle: Some(rd(&mut rng)), ..Default::default() }), ..Default::default() }.into());
+        }
+        lib.structs.push(st);
+        let fmt = if k % 2 == 0 { "json" } else { "yaml" };
+        ndoubles += 18;
+        let r = match guarded(|| rt_gds(&lib, fmt, "string", tmp)) { Ok(v) => v, Err(p) => json!({"outcome":"panic","msg":p}) };
+        if !(r["outcome"] == "ok" && r["proj_eq"] == true) {
+            *per_fmt.entry(fmt).or_insert(0u64) += 1;
+            if problems.len() < 40 { problems.push(json!({"kind":"double","crate":"gds21","fmt": fmt, "via":"string", "r": r})); }
+        }
+    }
+    // ---- LEF decimals in many spellings keep value AND are equal after the trip
+    json!({"id": id(case), "outcome":"ok", "strings_checked": nstrings, "doubles_checked": ndoubles, "libs_with_double_loss": per_fmt, "problems": problems})
+}
